@@ -23,7 +23,7 @@ type C08Action struct {
 	// content (a touch, or a save that changes nothing)
 	Files []int    `json:"files,omitempty"`
 	Texts []string `json:"texts,omitempty"`
-	Text string `json:"text,omitempty"`
+	Text  string   `json:"text,omitempty"`
 	// Incremental: for edit, send the new text as one incremental replacement of the whole old text
 	Incremental bool `json:"incremental,omitempty"`
 }
